@@ -114,6 +114,9 @@ CHECKS = {
  'C13': (['asan'], 'event-log monitor vs mpmath: one evaluator object per history (init / call / re-init) driven in the executor; outputs compared with the monitor\'s 50-digit evaluation of the library\'s own output trees at the exact input doubles (tolerance from measured conditioning, real mode only where every intermediate is real, complex mode off branch cuts), CSE on vs off, re-initialised vs fresh bit for bit; ASan on the callback tables',
          'Evaluators with 1-3 inputs and 1-4 outputs over arithmetic, powers, 33 elementary functions, atan2, Piecewise with relational / Contains / logical conditions, max/min, sign/floor/ceiling/truncate, relational and logical outputs; 3 input vectors each; histories A, B, A, A+cse on one object.',
          'Points at discontinuities or poles (detected by two-sided perturbation and a 16-digit re-evaluation) are not judged.', 'DESIGN.md 3/C13'),
+ 'C44': (['asan'], 'event-log monitor: every generated expression printed by latex / mathml / unicode / julia_str / sbml under ASan; MathML fed to an XML parser (expat), LaTeX brace and \\left/\\right balance counted, parse_sbml(sbml(e)) compared with e by eq and, when not eq, by value with the mpmath evaluator',
+         'Expressions of depth <= 4 over every node class incl. symbol names with spaces, quotes, non-ASCII and XML markup characters; a separate generator for the SBML fragment (arithmetic, powers, 30 functions, log with base, max/min, piecewise, relationals, logic, pi, E).',
+         'A printer may decline a type with NotImplementedError / "not supported"; doubles are compared to the 15 significant digits the printers write.', 'DESIGN.md 3/C44'),
 }
 
 def main():
